@@ -32,6 +32,9 @@ def run(ck):
     n = run_for(ck, radio, agg)
     # R02.10: a batch (list/tuple) is one send() per element with the caller's options - send_only / force_retry apply to every element
     link.send_list(radio, agg, rule="R02.10")
+    # the ACK payload send()/resend() return is fetched through any()/read()/pipe: their decode tables (R10.1, R10.6; ACK payloads arrive on
+    # pipe 0) are part of "returns the peer's ACK payload"
+    c10.run_for(ck, radio, agg)
     agg.flush()
     ck.floor("R02.4", "send() prologue scenarios", n[0], 256)
     ck.floor("R02", "send() outcome scenarios", n[1], 4)
